@@ -40,6 +40,164 @@ def rel(loc):
     return loc.replace(REPO + "/", "")
 
 
+INTTYPE = re.compile(r"^(const )?(unsigned |signed )?(int|long|short|char|unsigned|std::size_t|size_t|unsigned short|unsigned long|long long|"
+                     r"unsigned int|std::vector<.*>::size_type|\w+(::\w+)*::size_type)\b")
+
+
+def lineno(f, sid):
+    m = re.search(r":(\d+)(?::\d+)?$", f.short_loc(sid))
+    return int(m.group(1)) if m else 0
+
+
+def crash_rules(rep, funcs):
+    """three further necessary conditions of 'never crashes', over the same functions:
+     INT-DIV: an integer division or remainder whose divisor is not a non-zero constant is dominated by a test of the divisor against
+       zero (SIGFPE otherwise: '@StateVariable real a[3/0];');
+     CHECK-AFTER-DECREMENT: an iterator is not decremented and *then* compared with begin() (the test belongs before the decrement:
+       decrementing begin() is undefined);
+     RECURSIVE-FILE-ANALYSIS: every analyseFile of a DSL class constructs the cycle guard (a local whose constructor raises when the
+       file is already under analysis and registers it) before it opens the file: a file that includes itself through @MaterialLaw,
+       @Model or @BehaviourVariable would otherwise recurse until the stack is exhausted."""
+    from cfg import forward, branch
+    ndiv = 0
+    for f in funcs:
+        divs = []
+        for s_, n in f.stmts.items():
+            if n["k"] in ("BinaryOperator", "CompoundAssignOperator") and n.get("op") in ("/", "%", "/=", "%="):
+                ks = f.kids(s_)
+                t, tr = (n.get("t") or ""), (f.stmts.get(f.strip(ks[1]), {}).get("t") or "")
+                if INTTYPE.match(t) and INTTYPE.match(tr):
+                    dn = f.stmts.get(f.strip(ks[1]))
+                    if dn["k"] == "IntegerLiteral":
+                        continue
+                    if dn["k"] == "DeclRefExpr" and "const" in (dn.get("declType") or "") and not dn.get("parm"):
+                        continue        # a named constant
+                    divs.append((s_, f.strip(ks[1])))
+        if not divs or f.entry is None:
+            continue
+
+        def atom(f_, s):
+            bo = f_.binop(s)
+            if bo and bo[0] in ("==", "!="):
+                l, r = f_.stmts.get(f_.strip(bo[1])), f_.stmts.get(f_.strip(bo[2]))
+                for a, b in ((l, r), (r, l)):
+                    if b is not None and b["k"] == "IntegerLiteral" and int(b.get("value")) == 0 and a is not None:
+                        return (("zero", f_.text(f_.strip(bo[1] if a is l else bo[2]))), bo[0] == "!=")
+            return None
+        bad = []
+
+        def el(st, b, i, e):
+            if "s" in e:
+                n_ = f.stmts[e["s"]]
+                if n_["k"] == "CallExpr" and (n_.get("callee") or "").split("<")[0].endswith("raise_if") and n_.get("args"):
+                    # raise_if(c, ...) returns only when c is false
+                    from cfg import refine
+                    fx = refine(f, f.strip(n_["args"][0]), False, dict(st), atom)
+                    if fx is None:
+                        return ()
+                    st = tuple(sorted(fx.items(), key=repr))
+                for s_, dv in divs:
+                    if e["s"] == s_ and dict(st).get(("zero", f.text(dv))) is not False:
+                        bad.append((s_, f.text(dv)))
+            return (st,)
+
+        def ed(st, b, succ, pol):
+            fx = branch(f, b, pol, dict(st), atom)
+            return () if fx is None else (tuple(sorted(fx.items(), key=repr)),)
+        forward(f, ((),), el, ed)
+        ndiv += len(divs)
+        if bad:
+            s_, dv = bad[0]
+            rep.fail("INT-DIV@%s" % f.qname, "%s: %s divides integers by '%s' without testing it against zero: a zero divisor taken from the "
+                     "input kills the process with SIGFPE" % (rel(f.short_loc(s_)), f.qname, dv))
+        else:
+            rep.ok("%s: integer divisions are guarded" % f.qname, sample=False)
+    rep.count("integer divisions by a non-constant", ndiv)
+    # CHECK-AFTER-DECREMENT
+    nd = 0
+    for f in funcs:
+        pos = f.stmt_positions() if f.entry is not None else {}
+        for s_, n in sorted(f.stmts.items()):
+            if not (n["k"] in ("UnaryOperator", "CXXOperatorCallExpr") and n.get("op") == "--"):
+                continue
+            tgt = f.kids(s_)[0] if n["k"] == "UnaryOperator" else (n.get("args") or [None])[0]
+            tn = f.stmts.get(f.strip(tgt)) if tgt is not None else None
+            if tn is None or tn["k"] != "DeclRefExpr" or not tn.get("local") or "iterator" not in (tn.get("declType") or ""):
+                continue
+            nd += 1
+            # the first use of the iterator after the decrement: a comparison with begin() (the test comes too late) or anything else
+            pm = f.parent_map()
+            uses = sorted(y for y, m in f.stmts.items() if y > s_ and m["k"] == "DeclRefExpr" and m.get("declId") == tn["declId"] and lineno(f, y) >= lineno(f, s_))
+
+            def inside(y):
+                q = y
+                for _ in range(6):
+                    if q == s_:
+                        return True
+                    q = pm.get(q)
+                    if q is None:
+                        return False
+                return False
+            uses = [y for y in uses if not inside(y)]
+            if uses:
+                y = uses[0]
+                # climb to the enclosing comparison, if any
+                q, hit = y, None
+                for _ in range(4):
+                    q = pm.get(q)
+                    if q is None:
+                        break
+                    bo = f.binop(q)
+                    if bo and bo[0] in ("!=", "=="):
+                        sides = [f.stmts.get(f.strip(bo[1])), f.stmts.get(f.strip(bo[2]))]
+                        if any(x is not None and x["k"] == "CXXMemberCallExpr" and (x.get("callee") or "").rsplit("::", 1)[-1] in ("begin", "cbegin") for x in sides):
+                            hit = q
+                        break
+                if hit is not None:
+                    rep.fail("CHECK-AFTER-DECREMENT@%s#%s" % (f.qname.split("(")[0], tn["name"]), "%s: %s decrements '%s' and only then compares it with begin(): "
+                             "when it was begin() the decrement is already undefined (and the element before the first is read)"
+                             % (rel(f.short_loc(s_)), f.qname.split("(")[0], tn["name"]))
+    rep.count("decrements of local iterators", nd)
+    # RECURSIVE-FILE-ANALYSIS
+    na = 0
+    ctors = {}
+    for f in funcs:
+        if f.parent is None:
+            ctors.setdefault(f.qname, []).append(f)
+    for f in funcs:
+        if f.parent is not None or not f.qname.endswith("::analyseFile") or f.entry is None:
+            continue
+        opens = [s_ for s_, n in f.stmts.items() if n["k"] == "CXXMemberCallExpr" and (n.get("callee") or "").rsplit("::", 1)[-1] in ("importFile", "openFile")]
+        if not opens:
+            continue
+        na += 1
+        guarded = False
+        for s_, n in sorted(f.stmts.items()):
+            if n["k"] != "DeclStmt" or lineno(f, s_) > min(lineno(f, o_) for o_ in opens):
+                continue
+            for dd in n["decls"]:
+                ce = f.stmts.get(f.strip(dd["init"])) if "init" in dd else None
+                if ce is None or ce["k"] != "CXXConstructExpr":
+                    continue
+                for g in ctors.get(ce.get("callee") or "", []):
+                    raises = any(m["k"] == "CXXThrowExpr" or (m["k"] == "CallExpr" and (m.get("callee") or "").split("<")[0].endswith(("raise_if", "raise")))
+                                 for m in g.stmts.values())
+                    registers = any(m["k"] == "CXXMemberCallExpr" and (m.get("callee") or "").rsplit("::", 1)[-1] in ("push_back", "insert", "emplace_back", "emplace")
+                                    for m in g.stmts.values())
+                    if raises and registers:
+                        guarded = True
+        if guarded:
+            rep.ok("%s registers the file in the cycle guard before opening it" % f.qname)
+        else:
+            rep.fail("RECURSIVE-FILE-ANALYSIS@%s" % f.qname, "%s: %s opens the file without registering it in a cycle guard: a file that includes itself "
+                     "(@MaterialLaw, @Model, @BehaviourVariable naming the file being treated) is analysed again and again until the stack is "
+                     "exhausted" % (rel(f.loc), f.qname))
+    rep.count("analyseFile implementations", na)
+    rep.floor("analyseFile implementations", 2)
+    rep.floor("decrements of local iterators", 3)
+    rep.floor("integer divisions by a non-constant", 1)
+
+
 def run(tier):
     rep = Report("C35", tier, "other", RULE)
     allu = units_under("mfront/src")
@@ -48,7 +206,9 @@ def run(tier):
     else:
         units = [u for u in allu if os.path.basename(u) in ANCHORS] + units_under("mfront-query/src")[:1]
     units.append(os.path.join(REPO, "src/Utilities/CxxTokenizer.cxx"))
-    funcs, found = C54.analyse_units(rep, sorted(set(units)), r"^(mfront::|tfel::utilities::CxxTokenizer)", member="this->current")
+    units += [u for u in units_under("src/Math") if "IntegerEvaluator" in os.path.basename(u)]
+    units += [u for u in allu if os.path.basename(u) in ("ModelDSL.cxx",)]
+    funcs, found = C54.analyse_units(rep, sorted(set(units)), r"^(mfront::|tfel::utilities::CxxTokenizer|tfel::math::IntegerEvaluator)", member="this->current")
     seen = set()
     for f, sid, var, why in found:
         loc = rel(f.short_loc(sid)) if sid in f.stmts else rel(f.loc)
@@ -66,6 +226,7 @@ def run(tier):
         rep.ok("dereference in state CHECKED", sample=False)
     check_ownership(rep, funcs, rel)
     borrow.rule(rep, funcs, lambda t: bool(C54.ITER.search(t or "")), rel, 5)
+    crash_rules(rep, funcs)
     rep.floor("iterator dereference sites", 300)
     rep.assumptions += ["a necessary condition only: termination in bounded time and the other sources of undefined behaviour are not decided",
                         "quick tier: the anchor units; thorough: every unit of mfront/src and mfront-query/src"]
